@@ -312,7 +312,7 @@ func (r *Rand) Int63n(n int64) int64 {
 	return int64(r.U64() % uint64(n))
 }
 
-func (r *Rand) Bool() bool         { return r.U64()&1 == 1 }
+func (r *Rand) Bool() bool            { return r.U64()&1 == 1 }
 func (r *Rand) Chance(p float64) bool { return float64(r.U64()>>11)/float64(1<<53) < p }
 
 func (r *Rand) Bytes(n int) []byte {
